@@ -20,7 +20,7 @@ var Check = &vrt.Check{
 	Rule: "one case = one scenario: register a port (0,1,2,7) with a simulated AGWPE TNC over an in-memory link with PRNG read segmentation or over loopback TCP with " +
 		"sleep-separated partial writes, dial (0..2 digipeaters) or accept, application writes (1 B..8 kB) concurrent with TNC bursts (1..256 frames of 1..2048 B, reader " +
 		"stalled during a burst or not, reader buffers 1/7/64/300/4096), interleaved frames for other ports/stations and unknown kinds, optionally a second live connection " +
-		"on the same port, then remote disconnect / Flush+Close / Close in mid-stream / Close, Port.Close+TNC.Close or link drop while the reader is stalled behind a full pipeline. Fixed regression scenarios (one per known defect shape and per malformed reply) are part of both tiers. A scenario is non-trivial " +
+		"on the same port (with its own concurrent writer on a slow link), then remote disconnect / Flush+Close / Close in mid-stream / Close, Port.Close+TNC.Close or link drop while the reader is stalled behind a full pipeline. Fixed regression scenarios (one per known defect shape and per malformed reply) are part of both tiers. A scenario is non-trivial " +
 		"when a connection was established and at least one payload byte crossed it and was compared with the ledger; distinct = distinct scenario parameter vectors",
 	Assumptions: []string{
 		"the simulated TNC reports at least one outstanding frame at the first 'Y' query after a 'D' frame and lets every frame drain after at most 3 queries (Write/Flush waiting for a TNC that never does is a liveness hazard outside the statement)",
@@ -189,10 +189,38 @@ func fixedScenarios() []fixed {
 		sc.End, sc.DropInStall = "link-drop", true
 		sc.Writes = nil // the application's writer is not racing the end of the link
 	})
+	// the end of the link right behind the last frames: everything sent before must still be delivered
+	for i, seg := range []string{"whole", "hostile", "bytes", "whole", "hostile", "cut0", "cut10", "cut0"} {
+		mk(fmt.Sprintf("link-drop-behind-burst-%d", i), func(sc *scenario) {
+			if seg[0] == 'c' {
+				sc.Link = "tcp"
+			}
+			sc.Seg = seg
+			sc.RBuf = []int{4096, 64, 300, 7, 4096, 4096, 64, 300}[i]
+			sc.Bursts = []burst{{Frames: 64 + 16*i, MinSz: 1, MaxSz: 60, StallMs: 20 + 10*(i%3)}}
+			sc.End, sc.DropInStall = "link-drop", true
+			sc.Writes = nil
+		})
+	}
 	mk("two-connections", func(sc *scenario) {
 		sc.Dual, sc.DualPct = true, 50
 		sc.Bursts = []burst{{Frames: 40, MinSz: 1, MaxSz: 200, ForeignPct: 30}, {Frames: 100, MinSz: 1, MaxSz: 100, StallMs: 40}}
 		sc.NoisePct = 50
+	})
+	mk("two-connections-concurrent-writers", func(sc *scenario) {
+		sc.Seg = "whole"
+		sc.Dual, sc.DualPct = true, 50
+		sc.Bursts = []burst{{Frames: 20, MinSz: 1, MaxSz: 100}}
+		sc.Writes = []int{100, 2000, 1, 300, 50, 700, 8000, 20}
+		sc.Writes2 = []int{64, 1500, 3, 900, 10, 4000, 7, 250}
+		sc.End = "app-close"
+	})
+	mk("two-connections-concurrent-writers-tcp", func(sc *scenario) {
+		sc.Link, sc.Seg = "tcp", "cut0"
+		sc.Dual, sc.DualPct = true, 50
+		sc.Bursts = []burst{{Frames: 20, MinSz: 1, MaxSz: 100}}
+		sc.Writes = []int{100, 2000, 1, 300, 50, 700, 8000, 20}
+		sc.Writes2 = []int{64, 1500, 3, 900, 10, 4000, 7, 250}
 	})
 	mk("two-connections-port-2-tcp-app-close", func(sc *scenario) {
 		sc.Link, sc.Seg, sc.Port = "tcp", "cut10", 2
@@ -287,6 +315,12 @@ func randomStream(seed int64, i int) scenario {
 	}
 	if r.Intn(100) < 15 {
 		sc.Dual, sc.DualPct = true, vrt.Pick(r, []int{10, 50, 100})
+		if r.Intn(2) == 0 {
+			// a second session writing at the same time on the shared TNC link
+			for n := 1 + r.Intn(6); n > 0; n-- {
+				sc.Writes2 = append(sc.Writes2, vrt.Pick(r, []int{1, 30, 300, 2000, 8000})+r.Intn(20))
+			}
+		}
 	}
 	switch x := r.Intn(100); {
 	case x < 38:
